@@ -143,6 +143,17 @@ func IntIn(lo, hi int) int {
 	return v
 }
 
+// IntOf returns one of the listed values; the executor explores every one.
+func IntOf(vals ...int) int {
+	v := int(int64(next("int").Val))
+	for _, x := range vals {
+		if x == v {
+			return v
+		}
+	}
+	panic("verifrt: IntOf value not in list")
+}
+
 func Assume(c bool) {
 	if !c {
 		panic(AssumeFailed{})
